@@ -97,6 +97,8 @@ func genTree(r *Rand, depth, maxDepth int, budget *int) TNode {
 		t.Kind = "walkable"
 		if r.Chance(1, 3) {
 			t.Kind = "walknt"
+		} else if r.Chance(1, 3) {
+			t.Kind = "wrapnt"
 		}
 	} else if depth > 0 && r.Chance(1, 14) {
 		// a list of alternatives nested below the root (Walkable: only its first element is walked)
@@ -159,7 +161,7 @@ func (t *TNode) valid(root bool) error {
 		if len(t.Kids) != 0 {
 			return fmt.Errorf("%s with kids", t.Kind)
 		}
-	case "walkable", "walknt":
+	case "walkable", "walknt", "wrapnt":
 	case "list":
 		if len(t.Kids) == 0 {
 			return fmt.Errorf("list must not be empty")
@@ -253,6 +255,41 @@ func (n *walkNTNode) Walk(f func(parsley.Node) bool) bool {
 }
 func (n *walkNTNode) Children() []parsley.Node { return n.kids }
 func (n *walkNTNode) Value(userCtx interface{}) (interface{}, parsley.Error) {
+	if n.run.callback("eval", n.id, userCtx, "") {
+		return nil, parsley.NewErrorf(parsley.Pos(n.id), "fault@%d", n.id)
+	}
+	var sb strings.Builder
+	sb.WriteString("(")
+	for _, c := range n.kids {
+		v, err := parsley.EvaluateNode(userCtx, c)
+		if err != nil {
+			return nil, err
+		}
+		sb.WriteString(canon(v) + " ")
+	}
+	return sb.String() + ")", nil
+}
+
+// wrapNTNode is a user node that EMBEDS the library's non-terminal (the usual way to
+// decorate a parser's node) and exposes its own child list; it has no Walk of its own, so
+// the library walks Children() in order. Whatever the embedded type provides beyond the
+// methods redefined here (StaticCheck with a nil interpreter: nothing) is inherited.
+type wrapNTNode struct {
+	*ast.NonTerminalNode
+	run  *c13Run
+	id   int
+	kids []parsley.Node
+}
+
+func (n *wrapNTNode) Token() string            { return "WRAPNT" }
+func (n *wrapNTNode) Schema() interface{}      { return nil }
+func (n *wrapNTNode) Pos() parsley.Pos         { return parsley.Pos(n.id) }
+func (n *wrapNTNode) ReaderPos() parsley.Pos   { return parsley.Pos(n.id) }
+func (n *wrapNTNode) Children() []parsley.Node { return n.kids }
+func (n *wrapNTNode) Transform(userCtx interface{}) (parsley.Node, parsley.Error) {
+	return n, nil // transforms itself: stays as it is, the library does not descend
+}
+func (n *wrapNTNode) Value(userCtx interface{}) (interface{}, parsley.Error) {
 	if n.run.callback("eval", n.id, userCtx, "") {
 		return nil, parsley.NewErrorf(parsley.Pos(n.id), "fault@%d", n.id)
 	}
@@ -458,6 +495,8 @@ func (r *c13Run) build(t *TNode) parsley.Node {
 		n = &walkableNode{hNode{r, id, "walkable", kids}}
 	case "walknt":
 		n = &walkNTNode{hNode{r, id, "walknt", kids}}
+	case "wrapnt":
+		n = &wrapNTNode{NonTerminalNode: ast.NewEmptyNonTerminalNode("INNER", parsley.Pos(id), nil), run: r, id: id, kids: kids}
 	case "xformable":
 		n = &xformableNode{hNode{r, id, "xformable", nil}}
 	case "checkable":
@@ -562,7 +601,7 @@ func (m *c13Model) walk(x *mTree, visit func(*mTree) bool) bool {
 		if m.walk(x.kids[0], visit) {
 			return true
 		}
-	case "nt":
+	case "nt", "wrapnt":
 		for _, k := range x.kids {
 			if m.walk(k, visit) {
 				return true
@@ -687,7 +726,7 @@ func (m *c13Model) eval(x *mTree) (interface{}, string) {
 		return int64(x.id), ""
 	case "empty", "walkable", "xformable", "checkable":
 		return noValue(x.id)
-	case "walknt":
+	case "walknt", "wrapnt":
 		if m.callback("eval", x.id, "") {
 			return nil, fmt.Sprintf("%d:fault@%d", x.id, x.id)
 		}
@@ -797,6 +836,8 @@ func (r *c13Run) shape(n parsley.Node) string {
 		return fmt.Sprintf("walkable%d", x.id)
 	case *walkNTNode:
 		return fmt.Sprintf("walknt%d", x.id)
+	case *wrapNTNode:
+		return fmt.Sprintf("wrapnt%d", x.id)
 	case *xformableNode:
 		return fmt.Sprintf("xformable%d", x.id)
 	case *checkableNode:
@@ -834,6 +875,8 @@ func kidsOfReal(n parsley.Node) []parsley.Node {
 	case *walkableNode:
 		return x.kids
 	case *walkNTNode:
+		return x.kids
+	case *wrapNTNode:
 		return x.kids
 	case parsley.NonTerminalNode:
 		return x.Children()
